@@ -41,6 +41,8 @@ import (
 //   eng=d|x   dis=0|1   cps=<h>:<id>,..   init=<id>.<id>..   n=<p>:<cap>:<chain ids>:<reserve ids>
 //   ch=<hint>.<hint>..   g=.. f=.. <sub>   (the header universe, common_chain syntax)
 //   commands: C<p> D<p> Q<p> X<p> S<p> A<p>.<k>.<i|h> T<0|1> G<p> R<fuel>
+//             K<p>.<stage>  the node drops during the handshake: stage 0 before its version message, 1 after its version and
+//                           before its verack (a completed handshake followed by a drop is C<p>;X<p>)
 // ---------------------------------------------------------------------------------------------
 
 const rigNow = 1800000000 // the model's wall clock; generated timestamps stay far away from it on both sides
@@ -764,6 +766,71 @@ func (r *dRig) connect(p int) (string, error) {
 	return r.after(fmt.Sprintf("N%d", p), pan)
 }
 
+// connectDrop: the node connects (real inboundPeerConnected -> serverPeer, peerDoneHandler goroutine) and drops the connection
+// during the handshake.  Stage 0: before sending its version - nothing reaches the sync manager.  Stage 1: after its version
+// (serverPeer.OnVersion has queued NewPeer) and before its verack: the handshake fails, the peer object disconnects, the real
+// peerDoneHandler decides whether the sync manager is told (DonePeer); the queued new-peer message is handled afterwards, the
+// done event - if one was sent - waits in the pending list for the script like any other.
+func (r *dRig) connectDrop(p, stage int) (string, error) {
+	n, ok := r.nodes[p]
+	if !ok || n.used {
+		return "", nil
+	}
+	svcSide, nodeSide := connPair(p)
+	n.conn = nodeSide
+	n.used, n.open, n.out = true, false, nil
+	n.autoPong = false
+	n.startReader()
+	r.srv.Accept(svcSide)
+	if stage == 0 {
+		_ = n.conn.Close()
+		time.Sleep(2 * time.Millisecond)
+		return "", nil
+	}
+	if err := n.write(n.versionMsg()); err != nil {
+		return "", fmt.Errorf("node %d: writing version: %v", p, err)
+	}
+	m, err := r.pullFor("new", p)
+	if err != nil {
+		return "", err
+	}
+	_, pr, _ := p2psync.VerifC06Describe(m)
+	r.peers[p] = pr
+	r.byPeer[pr] = p
+	_ = n.conn.Close()
+	dl := time.Now().Add(rigTimeout)
+	for pr.Connected() && time.Now().Before(dl) {
+		time.Sleep(200 * time.Microsecond)
+	}
+	if pr.Connected() {
+		return "", fmt.Errorf("peer of node %d did not notice the close during the handshake", p)
+	}
+	// the done event, if the server reports this peer at all
+	deadline := time.Now().Add(400 * time.Millisecond)
+	for time.Now().Before(deadline) {
+		dm, got := r.sm.VerifC06Pull(time.Until(deadline))
+		if !got {
+			break
+		}
+		k, dp, _ := p2psync.VerifC06Describe(dm)
+		if k == "iscurrent" || k == "getsync" {
+			r.sm.VerifC06Handle(dm)
+			continue
+		}
+		if id, known := r.byPeer[dp]; known && k == "done" {
+			r.doneMsg[id] = dm
+			if id == p {
+				r.pendingDone = append(r.pendingDone, p)
+				break
+			}
+			continue
+		}
+		return "", fmt.Errorf("unexpected manager message %s during the handshake drop of node %d", k, p)
+	}
+	pan := r.sm.VerifC06Handle(m)
+	return r.after(fmt.Sprintf("N%d", p), pan)
+}
+
 func (r *dRig) deliver(p int) (string, error) {
 	n, ok := r.nodes[p]
 	if !ok || !n.open || len(n.out) == 0 {
@@ -847,6 +914,8 @@ func (r *dRig) cmd(c string) (string, error) {
 	switch op {
 	case 'C':
 		return r.connect(a)
+	case 'K':
+		return r.connectDrop(a, b)
 	case 'D':
 		return r.deliver(a)
 	case 'Q':
@@ -1111,7 +1180,7 @@ func (r *xRig) cmd(c string) (string, error) {
 		return r.connect()
 	case 'D':
 		return r.deliver()
-	case 'Q', 'T':
+	case 'Q', 'T', 'K':
 		return "", nil
 	case 'X':
 		if n.open {
